@@ -39,12 +39,16 @@ class C01(SchedProp):
         'temporal order: the launches of an operation are justified by the outputs recorded complete BEFORE the '
         'operation (as the judge checks on the observations). Partial: closure_complete (closure within bounds is fully submitted at an automatic shutdown) is NOT proved '
         '(def closure_complete_full; needs the no-deadlock argument of C04) - proved of it: auto_shutdown_quiescent; '
-        'it is decided by the judge on every real run of kind complete. Not in Sched v1: commands, several flows, '
+        'it is decided by the judge on every real run of kind complete; the judge also decides, for every run that shut down '
+        'by itself, that every graph-implied parentless instance (valid point of the task + TaskDef.is_parentless, '
+        'independently of next_point_parentless, which the model takes from the implementation) was submitted. Not in Sched v1: commands, several flows, '
         'xtriggers, datetime cycling, families (expanded before the model)')
     technique = ('refinement of the Lean scheduler model to atomic actions + inductive invariants over all op lists + '
                  'trace correspondence with the real Scheduler + trace judge')
     trusted = ['the runner instrumentation (wrappers around TaskPool.remove / process_message that only record)']
-    rule = ('generated integer-cycling workflows (2-6 tasks, 1-3 recurrences, AND/OR/parenthesised triggers, inter-cycle, '
+    rule = ('generated integer-cycling workflows (2-6 tasks, 1-3 recurrences, in a quarter of them additionally one '
+            'parentless task on two recurrences with interleaving points (different step or phase) with or without a '
+            'child per recurrence, AND/OR/parenthesised triggers, inter-cycle, '
             'pre-initial and absolute offsets, optional and custom outputs, suicide triggers, sequential tasks, retries, '
             'warm starts, stop points, runahead P0-P3) driven through the real Scheduler by a seeded adaptive schedule of '
             'main loops, submit results and job messages; kind complete = every finished task completes its required '
